@@ -259,9 +259,34 @@ func VerifHarness_C13_schedule() {
 	vfBuildAndCheck(def, vfChoice("opts", vfOptN))
 }
 
+// env: a map, or a list of maps (the documented forms), plus every other shallow shape
 func VerifHarness_C13_env() {
 	def := vfBaseDef()
-	def.Env = vfTree("env", 2)
+	switch vfChoice("env.form", 3) {
+	case 0:
+		def.Env = vfTree("env", 1) // nil | scalar | list of scalars | map of scalars (string / int keys)
+	case 1:
+		// list of 1..2 single-entry maps; keys string or int, values any scalar
+		n := 1 + vfChoice("env.len", 2)
+		l := make([]any, 0, n)
+		for i := 0; i < n; i++ {
+			var k any
+			if vfChoice("env.keykind", 2) == 0 {
+				k = vfS("env.key")
+			} else {
+				k = vfInt("env.ikey")
+			}
+			l = append(l, map[any]any{k: vfScalar("env.v", false)})
+		}
+		def.Env = l
+	case 2:
+		// nested values: a map whose value is itself a list or a map; a list holding a list
+		if vfChoice("env.nest", 2) == 0 {
+			def.Env = map[any]any{vfS("env.key"): vfTreeAt("env.v", 1, false)}
+		} else {
+			def.Env = []any{vfTreeAt("env.e", 1, false)}
+		}
+	}
 	vfBuildAndCheck(def, vfChoice("opts", vfOptN))
 }
 
@@ -386,11 +411,14 @@ func VerifHarness_C13_executor() {
 	vfConsts = []string{"command", ""}
 	sd := &stepDef{Name: vfStepName()}
 	sd.Executor = vfExecutorTree()
-	switch vfChoice("step.alsoCmd", 3) {
-	case 1:
-		sd.Command = vfStrLeaf("cmd")
-	case 2:
-		sd.Command = []any{}
+	// a command next to the executor only for the plain forms (the config spine keeps its own menu)
+	if m, ok := sd.Executor.(map[any]any); !ok || len(m) <= 1 {
+		switch vfChoice("step.alsoCmd", 3) {
+		case 1:
+			sd.Command = vfStrLeaf("cmd")
+		case 2:
+			sd.Command = []any{}
+		}
 	}
 	def.Steps = []*stepDef{sd}
 	vfBuildAndCheck(def, vfChoice("opts", vfOptN))
